@@ -286,6 +286,30 @@ def run_agg(agg, k1, holder, operand_holder):
         w = float(w) * 1
     if not core.close(v, float(w), rel=1e-9, ab=1e-9):
         return "VIOL", {"clause": "agg-value", "got": repr(v), "want": float(w)}
+    # the aggregate reads the array's *current* entries: change one entry afterwards and evaluate again
+    if agg != "size":
+        a2 = a.copy()
+        try:
+            if a.ndim == 1:
+                key = index_names(k1)[0][-1]
+                x[int(key) if key.isdigit() else key] = 60.5
+                a2[-1] = 60.5
+            else:
+                kr, kc = index_names(k1)[0][-1], index_names(k1)[1][0]
+                x[int(kr) if kr.isdigit() else kr][int(kc) if kc.isdigit() else kc] = 60.5
+                a2[-1][0] = 60.5
+            v2 = h(1)
+        except Exception as e:
+            return "ok", None     # updating is rejected loudly: nothing to compare
+        f2 = a2.flatten()
+        w2 = {"sum": np.sum(a2), "prod": np.prod(a2), "mean": np.mean(a2), "median": np.median(a2), "stddev": np.std(a2)}.get(agg)
+        if w2 is None:
+            kk = {"rank1": 1, "rank2": 2, "rankN": len(f2)}[agg]
+            w2 = np.sort(f2)[::-1][kk - 1]
+        if holder == "flow":
+            w2 = max(0.0, float(w2))
+        if not core.close(v2, float(w2), rel=1e-9, ab=1e-9):
+            return "VIOL", {"clause": "agg-value-after-entry-update", "got": repr(v2), "want": float(w2)}
     return "ok", None
 
 
